@@ -127,3 +127,62 @@ def check_C04(tier):
 def check_C13(tier):
     import hh as H
     return _hh_common("C13", tier, H.INV_C13, H.PROP_C13, ["query", "query", None], True)
+
+
+# ------------------------------------------------------------------------- C11
+
+def check_C11(tier):
+    import hashes_drv as HD
+    rep = Report("C11", tier)
+    rng = _rng("C11")
+    quick = tier == "quick"
+    other = HD.other_process_calls(SEED + 1, 100 if quick else 257)
+    HD.anchor(rep)
+    calls = HD.gen_calls(rng, 4 if quick else 16)
+    # keys constructed to have prescribed hashes double as a check (C02's realisation)
+    ok = HD.validate_calls(rep, calls, "c11a")
+    out = other.communicate()[0]
+    line = [x for x in out.splitlines() if x.startswith("CALLS")]
+    if not line:
+        raise common.MachineryError("second interpreter produced no calls")
+    calls2 = json.loads(line[0][5:])
+    if ok:
+        HD.validate_calls(rep, calls2, "c11b")
+    rep.sample(calls[5])
+    rep.sample(calls[-1])
+    rep.cov["rule"] = ("every length 0..257 x {fasthash64, fasthash32, murmur3} rotated, biased bytes, boundary seeds, "
+                       "keys built by slicing at offsets 0..7, second interpreter with another PYTHONHASHSEED; each call is "
+                       "distinct by construction")
+    rep.cov["distinct_nontrivial"] = len({json.dumps(c, sort_keys=True) for c in calls + calls2})
+    rep.assumptions += ["SMHasher's published verification values identify the reference algorithms",
+                        "TLC Bitwise Java overrides"]
+    return rep.finish()
+
+
+# ------------------------------------------------------------------------- C02
+
+def check_C02(tier):
+    import hll as H
+    import hashes_drv as HD
+    rep = Report("C02", tier)
+    rng = _rng("C02")
+    quick = tier == "quick"
+    HD.anchor(rep)          # Hashes.tla (placement oracle, incl. nlz64) is the published FastHash
+    H.model_check(rep, H.INVS, Slots=2 if quick else 3, MaxKeys=4, tag="c02mc")
+    edges = H.export_edges(rep, 2, 2 if quick else 3, "c02e",
+                           place_idx=sorted(rng.sample(range(1, 649), 24 if quick else 80)))
+    combos = [(7, 0), (12, 2**64 - 1)] if quick else [(p, s) for p in range(7, 17) for s in (0, 1, 2**32, 2**63, 2**64 - 1)]
+    H.replay_edges(rep, edges, combos, rng, max_places=None if quick else 12)
+    n = 80 if quick else 800
+    traces = [H.random_history(rng) if i % 3 else H.partition_history(rng) for i in range(n)]
+    for i in range(0, n, 200):
+        H.validate(rep, traces[i:i + 200], H.INVS, tag="c02tr%d" % i)
+    rep.sample({"p": traces[1]["p"], "seed": traces[1]["seed"],
+                "events": [{k: v for k, v in e.items() if k != "post"} for e in traces[1]["events"][:3]]})
+    rep.cov["exhaustive"] = True
+    rep.cov["rule"] = ("TLC: all orders/duplications/batchings/partitions/merge trees of 4 keys under every placement; "
+                       "edge replay with keys constructed to hit chosen registers and ranks 1, 2, 64-p+1; traces with "
+                       "placement recomputed by Hashes.tla")
+    rep.cov["distinct_nontrivial"] = rep.cov["states"]
+    rep.assumptions += ["Hashes.tla is the reference FastHash (anchored to SMHasher's verification value in the same run)"]
+    return rep.finish()
